@@ -10,7 +10,9 @@ padded / unknown / reordered, pretty-printed replies, several rpc-errors, <ok/> 
 reply TREES (read with xml.etree) and computes the rpc-errors itself (RpcErrors.parse_errors); (b) `areq` statements:
 ASYNCHRONOUS requests whose RPC object the program drops (or keeps), run on the threaded session of
 tools/harness/asyncsession_rpc.py (the library's own Session.run loop) whose in-order server holds the replies back and
-delivers them later, at pump points chosen by the case, with gc.collect() before and after."""
+delivers them later, at pump points chosen by the case, with gc.collect() before and after.
+Round 8: (c) `drop` statements: the connection is lost inside a with-body (ten ways, both sessions), so that the <unlock>
+fails at transport level; the body's exception must still be what leaves the with-block (property oracle only)."""
 import json, itertools, os
 import xml.etree.ElementTree as ET
 
@@ -36,7 +38,14 @@ RULE = ('programs over Ret | Raise | Req(lock/unlock/get-config, datastore) | Se
         'the entries, before / after a fresh context) x every answer script with <= 2 (thorough: 3) non-ok answers, every reply '
         'shape on the first and on the second entry\'s lock; `reuse` also in the random programs. Device profiles: every '
         'profile module of ncclient/devices (14) x {all scripts over ok/error/warning/warning+error for a body with a request '
-        'and a raising body, a re-entered context object, every reply shape on the lock and on the unlock, random programs}.')
+        'and a raising body, a re-entered context object, every reply shape on the lock and on the unlock, random programs}. '
+        'Connection lost inside a with-body (`drop`): 10 ways (peer closed / session closed by the application / unlock answered '
+        'by EOF / transport write raises OSError on the threaded session; not connected, send() raising TimeoutExpiredError, '
+        'OSError, SessionCloseError, RuntimeError, OperationError on the synchronous one) x 12 bodies (then raise - 3 classes '
+        'of body exception -, then return, then a request on the dead session, after an answered request / a caught error) x 7 '
+        'contexts (single, nested, caught, outer body ending normally, a later context entered on the dead session, re-entered '
+        'object) x answer scripts x rotating device profiles, plus random programs with a leaf replaced by a drop; oracle only '
+        '(no model): what leaves the with-block is the body\'s exception, at most one unlock reaches the peer.')
 ASSUMES = ['a severity is "error" when its text is exactly `error` (C06 reading; a padded severity, which the schema does not allow, is none)',
            'the server answers in the order of the requests (RFC 6241 pipelining): the reply to an asynchronous request never '
            'arrives after the reply to a later synchronous one',
@@ -57,12 +66,39 @@ ANS = {'ok': [], 'err': [('error', 'e')], 'warn': [('warning', 'w')], 'we': [('w
 # ('reuse', datastore, [[caught, body], ...]): ONE context object `R = m.locked(datastore)` kept and entered once per
 # entry, one after the other (`with R: body`); caught = 1: that with-statement stands in try / except Exception: pass
 # (a retry loop).  Model: LockCtx.Reuse.
+# ('drop', how, code): the CONNECTION IS LOST at this point of the program (inside a with-body: while the lock is held), then
+# - code > 0 - the body raises its own exception BodyErr(code); code 0: the program goes on.  The <unlock> of every context
+# that is open at that point then fails AT TRANSPORT LEVEL (it cannot be sent, is not answered, send() raises).  how:
+#   threaded session: 'eof' the peer closed (the session thread noticed: Session.send raises TransportError 'Not connected'),
+#     'close' the application closed the session in the body, 'eof-on-next' the peer answers the next request - the unlock -
+#     by closing the connection (SessionCloseError through the listener's errback), 'wr-oserr' the next transport write
+#     raises OSError (delivered through the errback);
+#   synchronous session: 's-te' not connected any more (TransportError from Session.send, nothing sent), and send() itself
+#     raising - after the peer got the request - 's-timeout' TimeoutExpiredError (an unlock that is never answered: the 30 s
+#     of LockContext's own RPC objects are not waited for), 's-oserr' OSError, 's-sce' SessionCloseError, 's-rt' RuntimeError,
+#     's-op' a bare OperationError.
+# Not in the Coq model (which has no connection loss): these cases are judged by the property oracle only.
+WIRE_HOWS = ['eof', 'close', 'eof-on-next', 'wr-oserr']
+SYNC_HOWS = ['s-te', 's-timeout', 's-oserr', 's-sce', 's-rt', 's-op']
+
+def drops(p):
+    k = p[0]
+    if k == 'drop': return [p[1]]
+    if k == 'seq': return drops(p[1]) + drops(p[2])
+    if k == 'try': return drops(p[1])
+    if k == 'locked': return drops(p[2])
+    if k == 'reuse': return [h for b in entries(p) for h in drops(b)]
+    return []
+
+def has_drop(p):
+    return bool(drops(p))
+
 def entries(p):
     return [e[1] for e in p[2]]
 
 def size(p):
     k = p[0]
-    if k in ('ret', 'raise', 'req', 'areq'): return 1
+    if k in ('ret', 'raise', 'req', 'areq', 'drop'): return 1
     if k == 'reuse': return 1 + sum(1 + size(b) for b in entries(p))
     if k == 'seq': return 1 + size(p[1]) + size(p[2])
     if k == 'locked': return 1 + size(p[2])
@@ -73,7 +109,7 @@ def has_req(p):
     if k == 'req': return True
     if k in ('seq',): return has_req(p[1]) or has_req(p[2])
     if k == 'try': return has_req(p[1])
-    if k in ('ret', 'raise', 'areq'): return False
+    if k in ('ret', 'raise', 'areq', 'drop'): return False
     if k == 'reuse': return any(has_req(b) for b in entries(p))
     return has_req(p[2])
 
@@ -197,6 +233,9 @@ def compile_prog(p):
                 out += [pad + 'env.hold()', pad + '_am = m.async_mode', pad + 'm.async_mode = True',
                         pad + 'try:', pad + '    ' + call,
                         pad + 'finally:', pad + '    m.async_mode = _am', pad + '    env.pump_next()']
+        elif k == 'drop':
+            out.append(pad + 'L.append(("lost", %r)); env.drop(%r)' % (p[1], p[1]))
+            if p[2]: out.append(pad + 'raise BodyErr.pick(%d)(%d)' % (p[2], p[2]))
         elif k == 'seq':
             stmts(p[1], ind, out); stmts(p[2], ind, out)
         elif k == 'try':
@@ -358,6 +397,7 @@ def make_server(st, pats):
             ref = refusing(answer_errors(a, i), pats)
         st['L'].append(('req', op, tgt, ref))
         st['replies'].append(reply)
+        if st.get('down'): raise send_failure(st['down'])        # synchronous session only: send() itself fails
         return [reply]
     return server
 
@@ -373,6 +413,26 @@ def profiles_present():
     import pkgutil, ncclient.devices
     found = sorted(m.name for m in pkgutil.iter_modules(ncclient.devices.__path__) if not m.name.startswith('_'))
     return ['default'] + [x for x in found if x != 'default']
+
+def send_failure(how):
+    from ncclient.transport.errors import SessionCloseError
+    from ncclient.operations.errors import TimeoutExpiredError, OperationError
+    return {'s-timeout': lambda: TimeoutExpiredError('ncclient timed out while waiting for an rpc reply.'),
+            's-oserr': lambda: BrokenPipeError(32, 'Broken pipe'), 's-sce': lambda: SessionCloseError(b''),
+            's-rt': lambda: RuntimeError('cannot schedule new futures after shutdown'),
+            's-op': lambda: OperationError('operation failed')}[how]()
+
+class SyncDrop:
+    """`env` of a program with `drop` statements on the synchronous session (shared between runs: restored after the run)"""
+    def __init__(self, m, st):
+        self.session, self.st = m._session, st
+    def drop(self, how):
+        if how == 's-te': self.session._connected = False
+        elif how in SYNC_HOWS: self.st['down'] = how
+        else: raise ValueError('drop %r needs the threaded session' % (how,))
+    def restore(self):
+        self.session._connected = True
+        self.st['down'] = None
 
 _DH = {}
 def device_handler(pats, profile=None):
@@ -417,23 +477,26 @@ def _wire_env(mode, pats, case):
     return m, st, env
 
 def on_wire(case):
-    return bool(case.get('wire')) or has_areq(case['prog'])
+    return bool(case.get('wire')) or has_areq(case['prog']) or any(h in WIRE_HOWS for h in drops(case['prog']))
 
 def impl_run(case):
     from ncclient.operations import RPCError
     p, script, mode, pats = case['prog'], case['answers'], case['mode'], case['pats']
     env = None
+    sync_drop = None
     if on_wire(case): m, st, env = _wire_env(mode, pats, case)
-    else: m, st = _env(mode, pats, case.get('profile'))
+    else:
+        m, st = _env(mode, pats, case.get('profile'))
+        if has_drop(p): sync_drop = SyncDrop(m, st)
     L = []
-    st['L'] = L; st['n'] = 0; st['script'] = script; st['replies'] = []
+    st['L'] = L; st['n'] = 0; st['script'] = script; st['replies'] = []; st['down'] = None
     # an application that switched the manager to asynchronous mode earlier (to pipeline requests) and then enters a
     # with-block: lock and unlock are synchronous whatever the manager's mode (only for programs that make no SYNCHRONOUS
     # request of their own: those would become asynchronous ones)
     m.async_mode = bool(case.get('async')) and not has_req(p)
     sess = None
     try:
-        compiled(p)(m, L, BodyErr, env)
+        compiled(p)(m, L, BodyErr, env if env is not None else sync_drop)
         res = ['normal']; exc = None
     except BodyErr as e:
         res = ['body', e.code]; exc = e
@@ -444,6 +507,7 @@ def impl_run(case):
     finally:
         m.async_mode = False
         if env is not None: sess = env.finish()
+        if sync_drop is not None: sync_drop.restore()
     wire = [[op, tgt] for tag, op, tgt, *_ in [x for x in L if x[0] == 'req']]
     return dict(wire=wire, result=res, log=L, exc=exc, n_requests=st['n'], replies=st['replies'], session=sess)
 
@@ -452,6 +516,8 @@ def check_property(case, im):
     from ncclient.operations import RPCError
     L = im['log']
     fails = []
+    # the connection was lost at that point of the program (`drop`): from there on no request is answered any more
+    lost = min([k for k, x in enumerate(L) if x[0] == 'lost'] or [len(L) + 1])
     for i, ent in enumerate(L):
         if ent[0] != 'attempt': continue
         cid, t = ent[1], ent[2]
@@ -459,6 +525,16 @@ def check_property(case, im):
         if not js:
             fails.append('context %d on %s never left' % (cid, t)); continue
         j = js[0]; X = L[j][2]; seg = L[i + 1:j]
+        if lost < i:
+            # entered on a dead connection: the <lock> cannot be granted, so the body must not run (lock BEFORE the body)
+            # and the caller learns; at most the one <lock> reached the peer
+            if any(x[:2] == ('body_start', cid) for x in seg):
+                fails.append('context %d: the connection was lost before, no <lock> of %s was granted, but the body ran' % (cid, t))
+            if X is None or isinstance(X, BodyErr):
+                fails.append('context %d: the <lock> of %s could not be done (connection lost) but the caller saw %r' % (cid, t, X))
+            if [x[:3] for x in seg] not in ([], [('req', 'lock', t)]):
+                fails.append('context %d: connection lost before; expected at most one <lock> of %s, saw %r' % (cid, t, [x[:3] for x in seg]))
+            continue
         if not seg or seg[0][:3] != ('req', 'lock', t):
             fails.append('context %d: first event is not <lock> of %s: %r' % (cid, t, seg[:1])); continue
         if seg[0][3]:          # lock answered with an error
@@ -473,6 +549,17 @@ def check_property(case, im):
         if not ks:
             fails.append('context %d: body never ended' % cid); continue
         k = ks[0]; E = seg[k][2]; after = seg[k + 1:]
+        if i < lost < i + 1 + k:
+            # the connection was lost INSIDE this body: the <unlock> fails at transport level (at most it reached the peer,
+            # once).  The property's last clause is untouched by that: what leaves the with-block is the body's exception
+            if [x[:3] for x in after] not in ([], [('req', 'unlock', t)]):
+                fails.append('context %d: connection lost in the body; expected at most one <unlock> of %s after it, saw %r' % (cid, t, [x[:3] for x in after]))
+            if E is not None:
+                if X is not E:
+                    fails.append('context %d: body raised %r (connection lost in the body, the unlock failed with it) but the caller saw %r' % (cid, E, X))
+            elif X is None or isinstance(X, BodyErr):
+                fails.append('context %d: connection lost in the body, body ended normally, the <unlock> of %s could not be done, but the caller saw %r' % (cid, t, X))
+            continue
         if len(after) != 1 or after[0][:3] != ('req', 'unlock', t):
             fails.append('context %d: after the body, expected exactly one <unlock> of %s, saw %r' % (cid, t, [x[:3] for x in after]))
             continue
@@ -484,17 +571,17 @@ def check_property(case, im):
                 fails.append('context %d: body ended normally, unlock accepted, but the caller saw %r' % (cid, X))
             if X is None and after[0][3]:
                 pass   # property silent: an unlock failure after a normal body (the model says: raised)
-    if im['result'][0] == 'other':
+    if im['result'][0] == 'other' and lost > len(L):
         fails.append('program ended in unexpected %s: %s' % (im['result'][1], im['result'][2]))
     se = im.get('session')
     if se is not None:
         # the threaded session: replies to the asynchronous requests of the bodies came in while / after the bodies ran
         if se['stuck']:
             fails.append('threaded session: %s' % '; '.join(se['stuck']))
-        if has_locked(case['prog']) and (se['errback'] or not se['connected']):
+        if has_locked(case['prog']) and (se['errback'] or not se['connected']) and not se.get('lost'):
             fails.append('the session did not survive the replies to the asynchronous requests of the with-bodies: connected=%s, error broadcast %r'
                          % (se['connected'], se['errback']))
-        if se['kept_unanswered']:
+        if se['kept_unanswered'] and not se.get('lost'):
             fails.append('%d of %d asynchronous requests whose RPC object was kept never got their reply' % (se['kept_unanswered'], se['kept']))
     return fails
 
@@ -531,10 +618,14 @@ def record(ctx, c, im, label):
     if ctx.evaluations % 9973 == 1: ctx.sample({'case': c, 'wire': im['wire'], 'result': im['result']})
     for what in check_property(c, im):
         ctx.fail(c, what, sig=None, expected='property C13', actual=dict(wire=im['wire'], result=im['result'], session=im.get('session')))
+    if has_drop(c['prog']):
+        ctx.hist('connection_lost', ','.join(sorted(set(drops(c['prog'])))))
+        return None                       # no connection loss in the model: property oracle only
     return (c, im['wire'], im['result'], model_call(c, im['replies']))
 
 def compare_model(ctx, recs):
     if not ctx.model: return
+    recs = [r for r in recs if r is not None]
     for k in range(0, len(recs), 20000):
         chunk = recs[k:k + 20000]
         outs = ctx.model.batch([mc for _, _, _, mc in chunk])
@@ -799,6 +890,71 @@ def async_cases(rng, thorough):
                           mode=rng.choice([0, 1, 2]), pats=[], wire=True))
     return cases
 
+# ------------------------------------------------------------------ the connection is lost inside a with-body
+def lost_bodies(how):
+    """bodies that lose the connection: ... then raise (each class of body exception: plain without / with args, a
+    TransportError of its own), ... then return, ... then make a request on the dead session (the body's exception is then
+    the session's own transport error), after a request that was answered, after an error that was caught"""
+    out = []
+    for code in (1, 2, 3, 0):
+        d = ('drop', how, code)
+        out += [d, ('seq', ('req', 2, 'running'), d)]
+    d0 = ('drop', how, 0)
+    out += [('seq', d0, ('raise', 4)), ('seq', d0, ('req', 2, 'running')), ('seq', ('try', ('raise', 1)), ('drop', how, 5)),
+            ('seq', d0, ('try', ('req', 2, 'candidate')))]
+    return out
+
+LOST_WRAPS = [lambda b: ('locked', 'running', b),
+              lambda b: ('locked', 'running', ('locked', 'candidate', b)),
+              lambda b: ('try', ('locked', 'candidate', b)),
+              lambda b: ('locked', 'running', ('try', ('locked', 'candidate', b))),        # the outer body ends normally
+              lambda b: ('seq', ('try', ('locked', 'candidate', b)), ('locked', 'running', ('ret',))),   # entered on the dead session
+              lambda b: ('reuse', 'candidate', [[1, b], [0, ('ret',)]]),
+              lambda b: ('locked', 'startup', ('seq', ('try', ('locked', 'running', b)), ('raise', 7)))]
+
+def inject_drop(rng, p, how):
+    """a random program with one of its leaves replaced by a `drop`"""
+    k = p[0]
+    if k in ('ret', 'raise', 'req', 'areq'): return ('drop', how, rng.choice([0, 1, 2, 3, 4, 5]))
+    if k == 'seq':
+        return ('seq', inject_drop(rng, p[1], how), p[2]) if rng.random() < 0.5 else ('seq', p[1], inject_drop(rng, p[2], how))
+    if k == 'try': return ('try', inject_drop(rng, p[1], how))
+    if k == 'locked': return ('locked', p[1], inject_drop(rng, p[2], how))
+    if k == 'reuse':
+        j = rng.randrange(len(p[2]))
+        return ('reuse', p[1], [[c, inject_drop(rng, b, how) if i == j else b] for i, (c, b) in enumerate(p[2])])
+    return p
+
+def lost_cases(rng, thorough):
+    cases = []
+    profs = profiles_present()
+    scripts = [[], ['warn'], ['ok', 'err'], ['ok', 'warn', 'we']]
+    for hi, how in enumerate(WIRE_HOWS + SYNC_HOWS):
+        for bi, b in enumerate(lost_bodies(how)):
+            for wi, w in enumerate(LOST_WRAPS):
+                p = w(b)
+                for si, sc in enumerate(scripts):
+                    if not thorough and si and (hi + bi + wi + si) % 3: continue
+                    c = dict(prog=p, answers=list(sc), mode=2, pats=[])
+                    # the profiles differ in what the (failing) request returns / how replies are dispatched: rotate through them
+                    if thorough or (hi + bi + wi + si) % 2:
+                        prof = profs[(hi * 7 + bi * 3 + wi + si) % len(profs)]
+                        if prof != 'default': c['profile'] = prof
+                    cases.append(c)
+                    if thorough:
+                        for prof in ('junos', 'nexus'):
+                            if prof in profs: cases.append(dict(c, profile=prof))
+    for _ in range(6000 if thorough else 500):
+        how = rng.choice(WIRE_HOWS + SYNC_HOWS)
+        p = inject_drop(rng, random_prog(rng, rng.randrange(2, 10)), how)
+        if lock_depth(p) > 6 or not has_drop(p): continue
+        c = dict(prog=p, answers=[rng.choice(['ok', 'ok', 'ok', 'err', 'warn', 'we', 'ex']) for _ in range(rng.randrange(0, 8))],
+                 mode=rng.choice([0, 1, 2]), pats=rng.choice([[], [], ['exempt*']]))
+        if rng.random() < 0.4: c['profile'] = rng.choice(profs)
+        if c.get('profile') == 'default': del c['profile']
+        cases.append(c)
+    return cases
+
 def corpus_cases():
     from vlib import paths
     d = os.path.join(paths.CORPUS, ID)
@@ -845,9 +1001,12 @@ def run(ctx):
     evaluate(ctx, profile_cases(rng, thorough), 'profiles')
     ctx.extra['profiles_run'] = profiles_present()
     evaluate_threaded(ctx, async_cases(rng, thorough), 'async')
+    lc = [norm_case(c) for c in lost_cases(rng, thorough)]
+    evaluate(ctx, [c for c in lc if not on_wire(c)], 'connection-lost')
+    evaluate_threaded(ctx, [c for c in lc if on_wire(c)], 'connection-lost')
     # random: bigger programs, explicit lock/unlock requests, all modes, richer answers, exempt patterns
     cases = []
-    for _ in range(1500 if ctx.tier == 'quick' else 40000):
+    for _ in range(1300 if ctx.tier == 'quick' else 40000):
         p = random_prog(rng, rng.randrange(2, 15))
         if lock_depth(p) > 6: continue
         k = rng.randrange(0, 12)
@@ -867,7 +1026,7 @@ def search(ctx, seeds):
     for p in reuse_progs(False):
         for script in itertools.product(['ok', 'err', 'warn'], repeat=4):
             tries.append(dict(prog=p, answers=list(script), mode=2, pats=[]))
-    tries += profile_cases(rng, False) + shape_cases(rng, False)[:3000] + async_cases(rng, False)
+    tries += profile_cases(rng, False) + shape_cases(rng, False)[:3000] + async_cases(rng, False) + lost_cases(rng, False)
     for _ in range(5000):
         p = random_prog(rng, rng.randrange(2, 12))
         tries.append(dict(prog=p, answers=[rng.choice(list(ANS)) for _ in range(rng.randrange(0, 10))], mode=rng.choice([0, 1, 2]),
